@@ -45,6 +45,19 @@ def resolve_operands(nl, picks, count=None):
     return out
 
 
+HAND_STYLES = ['list', 'list', 'tuple', 'iter']
+
+
+def hand(labels, style):
+    """How the caller hands a number over to a function whose parameter is annotated tp.Iterable[Label]: a private list,
+    a tuple, or a one-shot iterator."""
+    if style == 'tuple':
+        return tuple(labels)
+    if style == 'iter':
+        return iter(list(labels))
+    return list(labels)
+
+
 def fresh_inputs_host(n, prefix='x'):
     return {'inputs': [f'{prefix}{i}' for i in range(n)], 'gates': [[f'{prefix}{i}', 'INPUT', []] for i in range(n)],
             'outputs': []}
